@@ -123,6 +123,9 @@ def _run_one(i):
     except sx.OutOfSubset as e:
         v = be.Verdict(be.UNKNOWN, "SYMEX", detail=f"OUT-OF-SUBSET: {e}", seconds=time.time() - t0)
         v.out_of_subset = True
+    except tm.NotDifferentiable as e:
+        v = be.Verdict(be.UNKNOWN, "SYMEX", detail=f"OUT-OF-SUBSET: the extracted term is not differentiable in the variable of the contract ({e}): abs / trunc / mod of it", seconds=time.time() - t0)
+        v.out_of_subset = True
     except tm.NotScalar as e:
         v = be.Verdict(be.UNKNOWN, "SYMEX", detail=f"OUT-OF-SUBSET: a {type(e.args[0]).__name__} where the models handle scalars only (e.g. an index array, an array-valued argument of a scalar model)", seconds=time.time() - t0)
         v.out_of_subset = True
